@@ -1,53 +1,68 @@
 import Percival.Driver.Loop
-import Percival.Spec.Aes
-import Percival.Spec.Ctr
-import Percival.Model.AesCtr
-import Percival.Model.AesNi
+import Percival.Model.AesStep
 /-!
-`pmodel aes [hw]`: line protocol for crypto_aes.c / crypto_aesctr*.c (driver code, not part of any theorem).
-
-L1 part (before ` | `) = the *Spec's* answer: `Spec.Aes.cipher`/`keyExpansion` for `block`, and
-`Spec.Ctr.streamAt` at the driver's own byte position for `stream`/`streamzero`/`buf`.
-L2 part = the state of `Model.AesCtr` (`bytectr`, `pblk`, `buf`) — and, with `hw`, the round keys and block
-ciphertexts computed by the instruction-level `Model.AesNi` (so the SDM transcription meets the real CPU).
-The model's own output bytes are compared with the Spec's on every call; a difference (impossible by
-`Properties/C02.lean`) is printed as `model!=spec`, which shows up as an L1 failure.
+`pmodel aes [hw]`: line protocol for crypto_aes.c / crypto_aesctr*.c.  Thin by construction: `parse`,
+`Model.AesStep.stepOp`, `render` (what is printed and why: see `Model/AesStep.lean`; that `model!=spec` is never
+printed within the contract: `C02.exec_never_model_ne_spec`).
 
 ops: expand <keyhex> | block <16 bytes hex> [<inoff> <outoff> [inplace]] | init <nonce> | init2 <nonce> [<newkeyhex>] |
      stream <hex> [inplace [<off>] | <inoff> <outoff>] | streamzero <n> | buf <nonce> <hex> [<inoff> <outoff>] |
      seek <block> | bigstream <nonce> <n> <tail> [again] | free
 The offsets (0..15: where the harness puts the data relative to a 16-byte boundary) and `inplace` are facts about
-pointers; the Spec's answer does not depend on them, so the driver only checks their syntax.
+pointers; the Spec's answer does not depend on them, so `parse` only checks their syntax.
 With argument `hw` every call of ≥ 16 bytes takes the AES-NI routing (`Model.AesCtr.streamBulk`).
-
-`bigstream`: a fresh stream, ONE call of n zero bytes (16 ≤ n ≤ 2³² + 2²⁰), then a call of `tail` zero bytes.
-L1 = `Spec.Ctr.streamAt` for fixed windows of the big output (`bigWindows`), the whole tail output, and with `again`
-the words `again=zero` (the harness decrypts the whole buffer with a second stream object in calls of 2²⁰ − 1 bytes:
-CTR applied twice under any partition is the identity, `C02.ctr_twice_is_identity`).  The model is not run over the
-n bytes: its state after the ⌊n/16⌋ whole blocks is written down from the proved invariant exactly as `seek` does
-(`bytectr = 16·nb`, counter field = be64(nb − 1); `buf` = the last keystream block on the portable routing,
-untouched by the bulk loop), the n mod 16 remaining bytes and the tail call are run through the model.
 -/
 namespace Percival.Driver.Aes
-open Percival.Driver Percival.Spec Percival.Model
+open Percival.Driver Percival.Model Percival.Model.AesStep
 
-abbrev Key := List (List UInt8)      -- the round keys
+/-- an alignment offset 0..15 -/
+def isOff (t : String) : Bool := match t.toNat? with | some v => v < 16 | none => false
 
-def enc (k : Key) (b : List UInt8) : List UInt8 := Aes.cipher k b
+/-- an op with readable arguments, `.malformed` (answered `skip`) otherwise -/
+def orMalformed (o : Option Op) : Option Op := some (o.getD .malformed)
 
-structure St where
-  hw : Bool := false
-  key : Option Key := none             -- result of the last `expand`
-  nikey : Option AesNi.Key := none     -- the same key expanded by `Model.AesNi` (hw mode, L2)
-  strm : Option (AesCtr.Stream Key) := none
-  nonce : UInt64 := 0                  -- Spec-side bookkeeping
-  pos : Nat := 0
-  skey : Key := []                     -- key of the current stream (Spec side)
-
-/-- what the harness writes into the indeterminate bytes of a freshly allocated stream -/
-def poison : List UInt8 := List.replicate 16 0xa5
-
-def raw : AesCtr.Raw := { bytectr := 0, buf := poison, pblk := poison }
+def parse : List String → Option Op
+  | ["expand", k] => orMalformed ((bytesOfHex k).map .expand)
+  | "block" :: b :: rest =>
+      let shape : Option Bool := match rest with       -- none: not an op; some false: offsets out of range
+        | [] => some true
+        | [i, o] => some (isOff i && isOff o)
+        | [i, o, "inplace"] => some (isOff i && isOff o && i.toNat? == o.toNat?)
+        | _ => none
+      match shape with
+      | none => none
+      | some false => some .malformed
+      | some true => orMalformed ((bytesOfHex b).map .block)
+  | ["init", n] => orMalformed (n.toNat?.map fun n => .init (UInt64.ofNat n))
+  | "init2" :: n :: rest =>
+      orMalformed do
+        let n ← n.toNat?
+        match rest with
+        | [] => pure (.init2 (UInt64.ofNat n) none)
+        | [k] => pure (.init2 (UInt64.ofNat n) (some (← bytesOfHex k)))
+        | _ => none
+  | ["seek", nb] => orMalformed (nb.toNat?.map .seek)
+  | "stream" :: d :: rest =>
+      let okRest := match rest with
+        | [] | ["inplace"] => true
+        | ["inplace", o] => isOff o
+        | [i, o] => isOff i && isOff o
+        | _ => false
+      if !okRest then none else orMalformed ((bytesOfHex d).map .stream)
+  | ["streamzero", n] => orMalformed (n.toNat?.map .streamzero)
+  | "bigstream" :: nn :: n :: t :: rest =>
+      if rest != [] ∧ rest != ["again"] then none else
+      orMalformed do
+        pure (.bigstream (UInt64.ofNat (← nn.toNat?)) (← n.toNat?) (← t.toNat?) (rest != []))
+  | "buf" :: n :: d :: rest =>
+      let okRest := match rest with
+        | [] => true
+        | [i, o] => isOff i && isOff o
+        | _ => false
+      if !okRest then none else
+      orMalformed do pure (.buf (UInt64.ofNat (← n.toNat?)) (← bytesOfHex d))
+  | ["free"] => some .free
+  | _ => none
 
 def l2 (s : AesCtr.Stream Key) : String :=
   s!"ctr={s.bytectr.toNat} pblk={hexOfBytes s.pblk} buf={hexOfBytes s.buf}"
@@ -55,183 +70,38 @@ def l2 (s : AesCtr.Stream Key) : String :=
 def hex64 (x : UInt64) : String :=
   String.ofList ((List.range 16).map fun i => hexDigit ((x.toNat >>> (4 * (15 - i))) % 16))
 
+/-- long outputs are printed as length, FNV-1a checksum and the last 32 bytes -/
 def fnv1a (bs : List UInt8) : UInt64 :=
   bs.foldl (fun h b => (h ^^^ b.toUInt64) * 0x100000001b3) 0xcbf29ce484222325
 
 def lastN (n : Nat) (bs : List UInt8) : List UInt8 := bs.drop (bs.length - n)
 
-def expandKey (k : List UInt8) : Option Key :=
-  if k.length = 16 ∨ k.length = 32 then some (Aes.keyExpansion k) else none
+def showOpt : Option (List UInt8) → String
+  | some b => hexOfBytes b
+  | none => "model-oob"
 
-/-- one stream call: Spec answer, model answer, new state -/
-def doStream (st : St) (s : AesCtr.Stream Key) (data : List UInt8) : Option (St × List UInt8 × Bool) :=
-  let want := Ctr.streamAt (enc st.skey) st.nonce st.pos data
-  match AesCtr.stream enc st.hw s data with
-  | none => none
-  | some (s', got) =>
-    some ({ st with strm := some s', pos := st.pos + data.length }, want, got == want)
-
-/-- an alignment offset 0..15 -/
-def isOff (t : String) : Bool := match t.toNat? with | some v => v < 16 | none => false
-
-/-- `(offset, length)` of the windows of an n-byte output that `bigstream` prints: the first 64 bytes, 64 bytes
-    around every multiple of 2³⁰, the last 48 bytes (each cut to what exists) -/
-def bigWindows (n : Nat) : List (Nat × Nat) :=
-  let cut := fun (w : Nat × Nat) => (w.1, min w.2 (n - w.1))
-  let mids := ((List.range 8).map fun k => ((k + 1) * 2^30 - 32, 64)).filter fun w => w.1 < n
-  ([(0, 64)] ++ mids ++ [(n - min n 48, 48)]).map cut
-
-def bigLimit : Nat := 2^32 + 2^20
-def bigTail : Nat := 65536
+def render : Out → String
+  | .skip => "skip"
+  | .ok => "ok"
+  | .modelOob => "model-oob"
+  | .expanded none => "ok"
+  | .expanded (some rk) => s!"ok | rk={showOpt rk}"
+  | .block ct none => hexOfBytes ct
+  | .block ct (some ni) => s!"{hexOfBytes ct} | ni={showOpt ni}"
+  | .state s => s!"ok | {l2 s}"
+  | .stream want same s => (if same then hexOfBytes want else "model!=spec " ++ hexOfBytes want) ++ " | " ++ l2 s
+  | .streamzero n want same s =>
+      (if same then "" else "model!=spec ") ++ s!"n={n} fnv={hex64 (fnv1a want)} tail={hexOfBytes (lastN 32 want)} | {l2 s}"
+  | .big n wins tail again same s2 s3 =>
+      let ws := wins.map fun (off, w) => s!" @{off}:{hexOfBytes w}"
+      (if same then "" else "model!=spec ") ++
+        s!"n={n}{String.join ws} tail={hexOfBytes tail}{if again then " again=zero" else ""} | {l2 s2} then {l2 s3}"
+  | .buf want same => if same then hexOfBytes want else "model!=spec " ++ hexOfBytes want
 
 def step (st : St) (toks : List String) : St × String :=
-  match toks with
-  | ["expand", k] =>
-      match (bytesOfHex k).bind expandKey with
-      | some rks =>
-        -- hw: L2 = the round keys computed by the instruction-level model of crypto_aes_aesni.c
-        let nik := (bytesOfHex k).bind AesNi.keyExpand
-        ({ st with key := some rks, nikey := nik },
-         if st.hw then
-           match nik with
-           | some nk => s!"ok | rk={hexOfBytes nk.rkeys.flatten}"
-           | none => "ok | rk=model-oob"
-         else "ok")
-      | none => (st, "skip")
-  | "block" :: b :: rest =>
-      let shape : Option Bool := match rest with       -- none: not an op; some false: offsets out of range
-        | [] => some true
-        | [i, o] => some (isOff i && isOff o)
-        | [i, o, "inplace"] => some (isOff i && isOff o && i.toNat? == o.toNat?)
-        | _ => none
-      if shape == none then (st, "bad-op") else
-      if shape == some false then (st, "skip") else
-      match st.key, bytesOfHex b with
-      | some rks, some blk =>
-        if blk.length = 16 then
-          let l1 := hexOfBytes (Aes.cipher rks blk)
-          if st.hw then
-            -- L2 = AESENC/AESENCLAST sequence of the instruction-level model
-            let ni := match st.nikey.bind (AesNi.encryptBlock blk) with
-              | some c => hexOfBytes c
-              | none => "model-oob"
-            (st, s!"{l1} | ni={ni}")
-          else (st, l1)
-        else (st, "skip")
-      | _, _ => (st, "skip")
-  | ["init", n] =>
-      match st.key, n.toNat? with
-      | some rks, some n =>
-        let nonce := UInt64.ofNat n
-        match AesCtr.init raw rks nonce with
-        | some s => ({ st with strm := some s, nonce, pos := 0, skey := rks }, s!"ok | {l2 s}")
-        | none => (st, "model-oob")
-      | _, _ => (st, "skip")
-  | "init2" :: n :: rest =>
-      match st.strm, n.toNat? with
-      | some s, some n =>
-        let nonce := UInt64.ofNat n
-        let newkey : Option (Option Key) := match rest with
-          | [] => some none
-          | [k] => ((bytesOfHex k).bind expandKey).map some
-          | _ => none
-        match newkey with
-        | none => (st, "skip")
-        | some nk =>
-          match AesCtr.init2 s nk nonce with
-          | some s' =>
-            let skey := match nk with | some k => k | none => st.skey
-            ({ st with strm := some s', nonce, pos := 0, skey }, s!"ok | {l2 s'}")
-          | none => (st, "model-oob")
-      | _, _ => (st, "skip")
-  | ["seek", nb] =>
-      -- White-box jump to block `nb` (> 0) of the current stream: the state that streaming 16·nb bytes would
-      -- have produced according to the proved invariant (`C02.counter_block_at_any_index`):
-      -- bytectr = 16·nb, counter field = be64(nb − 1).  Lets the correspondence reach 2^32 blocks and beyond.
-      match st.strm, nb.toNat? with
-      | some s, some (n+1) =>
-        match AesCtr.writeAt s.pblk 8 (AesCtr.be64enc (UInt64.ofNat n)) with
-        | some pblk =>
-          let s' := { s with bytectr := UInt64.ofNat (16 * (n + 1)), pblk := pblk }
-          ({ st with strm := some s', pos := 16 * (n + 1) }, s!"ok | {l2 s'}")
-        | none => (st, "model-oob")
-      | _, _ => (st, "skip")
-  | "stream" :: d :: rest =>
-      let okRest := match rest with
-        | [] | ["inplace"] => true
-        | ["inplace", o] => isOff o
-        | [i, o] => isOff i && isOff o
-        | _ => false
-      if !okRest then (st, "bad-op") else
-      match st.strm, bytesOfHex d with
-      | some s, some data =>
-        match doStream st s data with
-        | some (st', want, same) =>
-          let l2s := match st'.strm with | some s' => l2 s' | none => ""
-          (st', (if same then hexOfBytes want else "model!=spec " ++ hexOfBytes want) ++ " | " ++ l2s)
-        | none => (st, "model-oob")
-      | _, _ => (st, "skip")
-  | ["streamzero", n] =>
-      match st.strm, n.toNat? with
-      | some s, some n =>
-        match doStream st s (List.replicate n 0) with
-        | some (st', want, same) =>
-          let l2s := match st'.strm with | some s' => l2 s' | none => ""
-          (st', (if same then "" else "model!=spec ") ++
-            s!"n={n} fnv={hex64 (fnv1a want)} tail={hexOfBytes (lastN 32 want)} | {l2s}")
-        | none => (st, "model-oob")
-      | _, _ => (st, "skip")
-  | "bigstream" :: nn :: n :: t :: rest =>
-      if rest != [] ∧ rest != ["again"] then (st, "bad-op") else
-      match st.key, nn.toNat?, n.toNat?, t.toNat? with
-      | some rks, some nn, some n, some t =>
-        if n < 16 ∨ n > bigLimit ∨ t > bigTail then (st, "skip") else
-        let nonce := UInt64.ofNat nn
-        let nb := n / 16
-        let s1? : Option (AesCtr.Stream Key) := do
-          let s0 ← AesCtr.init raw rks nonce
-          let pblk ← AesCtr.writeAt s0.pblk 8 (AesCtr.be64enc (UInt64.ofNat (nb - 1)))
-          pure { s0 with bytectr := UInt64.ofNat (16 * nb), pblk := pblk,
-                         buf := if st.hw then s0.buf else enc rks pblk }
-        match s1? with
-        | none => (st, "model-oob")
-        | some s1 =>
-          let st1 := { st with strm := some s1, nonce, pos := 16 * nb, skey := rks }
-          -- the last n mod 16 bytes of the big call (post_wholeblock), then the tail call
-          match doStream st1 s1 (List.replicate (n % 16) 0) with
-          | none => (st, "model-oob")
-          | some (st2, _, same2) =>
-            match st2.strm with
-            | none => (st, "model-oob")
-            | some s2 =>
-              match doStream st2 s2 (List.replicate t 0) with
-              | none => (st, "model-oob")
-              | some (st3, wantT, same3) =>
-                let wins := (bigWindows n).map fun (off, len) =>
-                  s!" @{off}:{hexOfBytes (Ctr.streamAt (enc rks) nonce off (List.replicate len 0))}"
-                let l2b := match st3.strm with | some s3 => l2 s3 | none => ""
-                (st3, (if same2 && same3 then "" else "model!=spec ") ++
-                  s!"n={n}{String.join wins} tail={hexOfBytes wantT}{if rest == [] then "" else " again=zero"} | {l2 s2} then {l2b}")
-      | _, _, _, _ => (st, "skip")
-  | "buf" :: n :: d :: rest =>
-      let okRest := match rest with
-        | [] => true
-        | [i, o] => isOff i && isOff o
-        | _ => false
-      if !okRest then (st, "bad-op") else
-      match st.key, n.toNat?, bytesOfHex d with
-      | some rks, some n, some data =>
-        let nonce := UInt64.ofNat n
-        let want := Ctr.stream (enc rks) nonce data
-        match AesCtr.ctrBuf enc st.hw raw rks nonce data with
-        | some got => (st, if got == want then hexOfBytes want else "model!=spec " ++ hexOfBytes want)
-        | none => (st, "model-oob")
-      | _, _, _ => (st, "skip")
-  | ["free"] =>
-      match st.strm with
-      | some _ => ({ st with strm := none }, "ok")
-      | none => (st, "skip")
-  | _ => (st, "bad-op")
+  match parse toks with
+  | some op => let r := stepOp st op; (r.1, render r.2)
+  | none => (st, "bad-op")
 
 def main (args : List String) : IO UInt32 :=
   loop ({ hw := args.contains "hw" } : St) step
